@@ -47,7 +47,7 @@ Definition v1_level (j : json) : option Z :=
   end.
 
 (** A field with [#[serde(default .., deserialize_with = "deserialize_v1_powerlevel")]]. *)
-Definition level_field (c : obj) (name : str) (default : Z) : option Z :=
+Definition lv_field (c : obj) (name : str) (default : Z) : option Z :=
   match lookup name c with
   | None => Some default
   | Some j => v1_level j
@@ -55,12 +55,12 @@ Definition level_field (c : obj) (name : str) (default : Z) : option Z :=
 
 (** [btreemap_deserialize_v1_powerlevel_values] (strings.rs:204-256): every key must
     deserialize as [T] ([keyok]) and every value as a power level. *)
-Fixpoint level_entries (keyok : str -> bool) (m : obj) : option (amap Z) :=
+Fixpoint lv_entries (keyok : str -> bool) (m : obj) : option (amap Z) :=
   match m with
   | [] => Some []
   | (k, j) :: m' =>
       if keyok k then
-        match v1_level j, level_entries keyok m' with
+        match v1_level j, lv_entries keyok m' with
         | Some z, Some rest => Some ((k, z) :: rest)
         | _, _ => None
         end
@@ -69,10 +69,10 @@ Fixpoint level_entries (keyok : str -> bool) (m : obj) : option (amap Z) :=
 
 (** [#[serde(default, deserialize_with = "btreemap_deserialize_v1_powerlevel_values")]]:
     [deserialize_map] refuses anything but an object. *)
-Definition level_map (keyok : str -> bool) (c : obj) (name : str) : option (amap Z) :=
+Definition lv_map (keyok : str -> bool) (c : obj) (name : str) : option (amap Z) :=
   match lookup name c with
   | None => Some []
-  | Some (JObj m) => level_entries keyok m
+  | Some (JObj m) => lv_entries keyok m
   | Some _ => None
   end.
 
@@ -82,7 +82,7 @@ Definition level_map (keyok : str -> bool) (c : obj) (name : str) : option (amap
 Definition notifications_room (c : obj) : option Z :=
   match lookup s!"notifications" c with
   | None => Some d_notifications_room
-  | Some (JObj m) => level_field m s!"room" d_notifications_room_field
+  | Some (JObj m) => lv_field m s!"room" d_notifications_room_field
   | Some (JArr []) => Some d_notifications_room_field
   | Some (JArr [j]) => v1_level j
   | Some _ => None
@@ -94,15 +94,15 @@ Variable uid_ok : str -> bool.
 (** [serde_json::from_str::<RoomPowerLevelsEventContent>] followed by [RoomPowerLevels::from]
     (P:25-110, 568-583); unknown members of the content are ignored. *)
 Definition of_content (c : obj) : option power_levels :=
-  let* ban := level_field c s!"ban" d_ban in
-  let* events := level_map any_key c s!"events" in
-  let* events_default := level_field c s!"events_default" d_events_default in
-  let* invite := level_field c s!"invite" d_invite in
-  let* kick := level_field c s!"kick" d_kick in
-  let* redact := level_field c s!"redact" d_redact in
-  let* state_default := level_field c s!"state_default" d_state_default in
-  let* users := level_map uid_ok c s!"users" in
-  let* users_default := level_field c s!"users_default" d_users_default in
+  let* ban := lv_field c s!"ban" d_ban in
+  let* events := lv_map any_key c s!"events" in
+  let* events_default := lv_field c s!"events_default" d_events_default in
+  let* invite := lv_field c s!"invite" d_invite in
+  let* kick := lv_field c s!"kick" d_kick in
+  let* redact := lv_field c s!"redact" d_redact in
+  let* state_default := lv_field c s!"state_default" d_state_default in
+  let* users := lv_map uid_ok c s!"users" in
+  let* users_default := lv_field c s!"users_default" d_users_default in
   let* room := notifications_room c in
   Some {| p_ban := ban; p_events := canon_map events; p_events_default := events_default;
           p_invite := invite; p_kick := kick; p_redact := redact; p_state_default := state_default;
